@@ -11,6 +11,8 @@ theorem verdict : (classify Generated.factsC03).Sound (Holds (cfgOf Generated.fa
 #print axioms compact_preserves
 #print axioms compact_preserves_torn
 #print axioms compaction_anywhere
+#print axioms compaction_mid_session
+#print axioms mStep_inv
 #print axioms compact_stale_temp_resurrects
 #print axioms not_preserves_of_stale
 #print axioms compact_crash_atomic
